@@ -538,11 +538,11 @@ class Parser:
                 if pat[0] != "pbind":
                     raise Unsupported("pattern parameter")
                 self.expect(":")
-                if self.at("&") and self.at("mut", 1):
-                    raise Unsupported("&mut parameter")
-                if self.at("&") and self.peek(1)[0] == "life" and self.at("mut", 2):
-                    raise Unsupported("&mut parameter")
-                params.append((pat[1], self.ty()))
+                is_mutref = (self.at("&") and self.at("mut", 1)) or (self.at("&") and self.peek(1)[0] == "life" and self.at("mut", 2))
+                pty = self.ty()
+                if is_mutref and not (pty[0] == "ty" and pty[1] == "Formatter"):
+                    raise Unsupported("&mut parameter")         # (only an output Formatter is supported)
+                params.append((pat[1], pty))
             if not self.accept(","):
                 break
         self.expect(")")
@@ -735,6 +735,19 @@ class Parser:
         if name in ("panic", "unreachable", "unimplemented", "todo"):
             self.skip_to(close)
             return ("panic",)
+        if name == "write":
+            target = self.expr()
+            self.expect(",")
+            tk = self.next()
+            if tk[0] != "str":
+                raise Unsupported("write! without a literal format string")
+            args = []
+            while self.accept(","):
+                if self.at(close):
+                    break
+                args.append(self.expr())
+            self.expect(close)
+            return ("write", target, str_value(tk[1]), args)
         if name == "format":
             tk = self.next()
             if tk[0] != "str":
@@ -1174,12 +1187,14 @@ class Ctx:
             return "unit"
         if name == "Option":
             return "(option %s)" % self.coq_ty(args[0])
-        if name == "Result":
+        if name == "Result" and len(args) == 2:
             return "(result %s %s)" % (self.coq_ty(args[0]), self.coq_ty(args[1]))
         if name in ("slice", "Vec"):
             return "(list %s)" % self.coq_ty(args[0])
-        if name in ("str", "String"):
-            return "(list N)"
+        if name in ("str", "String", "Formatter"):
+            return "(list N)"             # a Formatter is the text written so far
+        if name == "Result" and not args:
+            return "(result unit unit)"  # fmt::Result
         if name == "Ordering":
             return "comparison"
         if name in ("HashSet", "VecDeque") and len(args) == 1 and is_int(args[0]):
@@ -1249,7 +1264,7 @@ def has_kind(e, kinds):
 def has_exit(e):
     """`?` / `return` (exit from the function), or break / continue / assignment (an effect on the
     enclosing loop or on a variable): the continuation must then be threaded through the branches"""
-    if has_kind(e, ("try", "return", "break", "continue", "assign")):
+    if has_kind(e, ("try", "return", "break", "continue", "assign", "write")):
         return True
     found = []
 
@@ -1272,6 +1287,10 @@ def assigned_vars(e):
     def f(x):
         if x[0] == "assign":
             r = root(x[2])
+            if r and r not in out:
+                out.append(r)
+        if x[0] == "write" and isinstance(x[1], tuple):
+            r = root(x[1])
             if r and r not in out:
                 out.append(r)
         if x[0] == "mcall" and x[2] in MUTATING_METHODS and id(x) not in NONMUT_NODES:
@@ -1345,8 +1364,16 @@ class FnTranslator:
         self.locals = {}
         self.ret_k = lambda v: "Some %s" % self.finish(v)
         self.full_ret = self.ret if not mutself else (T(impl) if self.ret == UNIT else ("tup", [T(impl), self.ret]))
+        # a `&mut Formatter` parameter is an output buffer: the text is returned with the result
+        self.outparam = next((n for n, t in self.params if t is not None and t[0] == "ty" and t[1] == "Formatter"), None)
+        if self.outparam is not None:
+            if mutself:
+                raise Unsupported("&mut self together with a Formatter parameter")
+            self.full_ret = ("tup", [T("String"), self.ret])
 
     def finish(self, v):
+        if self.outparam is not None:
+            return "(%s, %s)" % (var(self.outparam), v)
         if not self.mutself:
             return v
         return var("self") if self.ret == UNIT else "(%s, %s)" % (var("self"), v)
@@ -1491,6 +1518,8 @@ class FnTranslator:
             return T("char")
         if k in ("strlit", "format"):
             return T("String")
+        if k == "write":
+            return T("Result", UNIT, UNIT)
         if k == "bool":
             return T("bool")
         if k == "path":
@@ -2492,6 +2521,20 @@ class FnTranslator:
         if kind == "veclit":
             wt = want[2][0] if is_list(want) else None
             return self.tr_list(e[1], env, lambda args: k("[" + "; ".join(args) + "]"), [wt] * len(e[1]))
+        if kind == "write":
+            atys = [self.ty_of(a, env) for a in e[3]]
+
+            def with_wargs(vals):
+                text = self.pure(("format", e[2], [("rawterm", v, t) for v, t in zip(vals, atys)]), env)
+                cur = self.pure(e[1], env)
+                if text is None or cur is None or self.ty_of(e[1], env) is None or self.ty_of(e[1], env)[1] != "Formatter":
+                    raise Unsupported("write! to something that is not a Formatter")
+                root, term = self.place_update(e[1], "(%s ++ %s)" % (cur, text), env)
+                return "let %s := %s in\n%s" % (var(root), term, k("(Ok tt)"))
+            return self.tr_list(e[3], env, with_wargs, atys)
+        if kind == "format":
+            atys = [self.ty_of(a, env) for a in e[2]]
+            return self.tr_list(e[2], env, lambda vals: k(self.pure(("format", e[1], [("rawterm", v, t) for v, t in zip(vals, atys)]), env)), atys)
         if kind == "arrayrep":
             wt = want[2][0] if is_list(want) else None
             return self.tr(e[1], env, lambda a: self.tr(e[2], env, lambda n: k("(repeat %s %s)" % (a, n)), T("usize")), wt)
@@ -2929,7 +2972,8 @@ class FnTranslator:
         rty = self.c.coq_ty(self.full_ret)
         args = "".join(" " + var(n) for n, _t in self.params)
         body_pure = None
-        if not has_exit(self.body) and not has_kind(self.body, ("while", "whilelet", "for", "loop")) and not self.mutself:
+        if not has_exit(self.body) and not has_kind(self.body, ("while", "whilelet", "for", "loop")) and not self.mutself \
+                and self.outparam is None:
             body_pure = self.pure_block(self.body, env, self.ret)
         name = self.coq_name
         if body_pure is not None:
@@ -3280,9 +3324,9 @@ MODULES = {
     },
     "StrPrintGen": {
         "files": ["smt_strings.rs"],
-        "types": [],
+        "types": ["SmtString"],
         "consts": ["MAX_CHAR"],
-        "functions": [(None, None, "smt_char_as_string"), (None, None, "char_to_smt")],
+        "functions": [(None, None, "smt_char_as_string"), (None, None, "char_to_smt"), ("SmtString", "Display", "fmt")],
     },
     "PartitionGen": {
         "files": ["character_sets.rs", "smt_strings.rs", "errors.rs"],
@@ -3374,6 +3418,8 @@ def translate_module(name, repo):
         rret = ctx.resolve_self(ret, impl) if impl else ret
         rparams = [(n, ctx.resolve_self(t, impl)) for n, t in params]
         full = rret if not mutself else (T(impl) if rret == UNIT else ("tup", [T(impl), rret]))
+        if any(t is not None and t[0] == "ty" and t[1] == "Formatter" for _n, t in rparams):
+            full = ("tup", [T("String"), rret])
         ctx.fn_info[(impl, fname)] = {"coq": coq, "ret": rret, "full_ret": full, "pure": None, "fuel": False,
                                       "params": rparams, "mutself": mutself}
         keyname[key] = fname
